@@ -148,3 +148,18 @@ CHECKS["C09"] = {
     ],
     "mandatory_labels": {"all": ["parallel/overlapping-sends", "parallel/several-groups", "controlled/dfs-schedules", "controlled/contended-lock"]},
 }
+
+CHECKS["C10"] = {
+    "level": "fault_enumeration",
+    "level_text": ("scripted and rapid-generated send/receive/register/push workloads executed once on a journaling datastore; every journal index "
+                   "(every put, delete, atomic batch commit, incl. key generation) is taken as a crash point, the store is restarted on the state at that "
+                   "point and post-restart invariants are checked against the pre-crash record; exhaustive per workload"),
+    "level_note": "single datastore writes are atomic, batches are atomic as on badger (a non-batching datastore is run as a second configuration); torn writes are not modelled",
+    "technique": "fault injection by exhaustive crash-point enumeration over generated workloads, invariant oracle after restart",
+    "rule": ("case = (workload, crash index); non-trivial = crash point strictly inside a multi-write API call; distinct = (group kind, window, batching, workload, index)"),
+    "assumptions": ["the peer store is never crashed", "a message opened before the crash must re-open; an interrupted call may or may not have taken effect"],
+    "units": [
+        {"pkg": _SS, "run": "^TestVerif_C10_", Q: {"timeout": 600}, T: {"timeout": 3400, "shards": 16}},
+    ],
+    "mandatory_labels": {"all": ["crash-inside/open", "crash-inside/register", "crash-inside/seal", "crash-inside/init", "crash-inside/push", "non-batching-datastore"]},
+}
